@@ -877,7 +877,11 @@ def spec_hazards(spec):
         if short == 'ThresholdOpenList' and given(a, 'quota_function') and 'quota_fraction' in a \
                 and build(a['quota_fraction']) != 1:
             out.add('openlist_quota_fraction')
-    return sorted(out)
+    return sorted(out & OPEN_HAZARDS)
+
+
+# the triggers of defects that are still open (the others were repaired: 1c4ee21, STAR unscored_value, ThresholdOpenList)
+OPEN_HAZARDS = {'validator_defaultdict', 'unrepresentable'}
 
 
 # ----------------------------------------------------------------------------------------------------------------------
